@@ -339,6 +339,13 @@ func MakePkt(kind string) *astits.Packet {
 			h.TransportErrorIndicator, h.TransportPriority = true, true
 		}
 		return &astits.Packet{Header: h, Payload: bytes.Repeat([]byte{0x6b}, 184)}
+	case "onebyte", "onebytepcr": // the one-byte adaptation field (adaptation_field_length 0) as NextPacket delivers it, re-emitted; and the same struct
+		// after the caller put a PCR into it without clearing the mark: the packet only fits in the one-byte form
+		af := &astits.PacketAdaptationField{IsOneByteStuffing: true}
+		if kind == "onebytepcr" {
+			af.HasPCR, af.PCR = true, cr(4242, 1)
+		}
+		return &astits.Packet{Header: astits.PacketHeader{PID: 0x300, HasAdaptationField: true, HasPayload: true, ContinuityCounter: 11}, AdaptationField: af, Payload: bytes.Repeat([]byte{0x2d}, 183)}
 	case "stalefit": // reused struct: HasPayload unset, a short stale payload still attached (everything fits 188 bytes)
 		return &astits.Packet{Header: astits.PacketHeader{PID: 0x300, HasAdaptationField: true, ContinuityCounter: 6},
 			AdaptationField: &astits.PacketAdaptationField{HasPCR: true, PCR: cr(6, 6)}, Payload: bytes.Repeat([]byte{0x19}, 20)}
